@@ -19,6 +19,13 @@ SPEC = os.path.join(VERIF, 'spec')
 JAR = '/opt/veriftools/tla/tla2tools.jar:/opt/veriftools/tla/CommunityModules-deps.jar'
 
 
+def _unlimit():
+    """the JVM reserves far more address space than it uses: lift the cap ./check puts on its own (python) process"""
+    import resource
+    hard = resource.getrlimit(resource.RLIMIT_AS)[1]
+    resource.setrlimit(resource.RLIMIT_AS, (hard, hard))
+
+
 class TLCError(Exception):
     """Machinery failure (TLC crashed, timed out, spec error) - exit code 2, never a VIOLATION."""
 
@@ -133,7 +140,7 @@ def run_tlc(module, cfg=None, workers=1, timeout=600, env=None, simulate=None, d
         e.update({k: str(v) for k, v in env.items()})
     t0 = time.time()
     try:
-        p = subprocess.run(cmd, cwd=moddir, env=e, stdout=subprocess.PIPE, stderr=subprocess.STDOUT,
+        p = subprocess.run(cmd, cwd=moddir, env=e, preexec_fn=_unlimit, stdout=subprocess.PIPE, stderr=subprocess.STDOUT,
                            text=True)
     finally:
         shutil.rmtree(meta, ignore_errors=True)
@@ -182,7 +189,7 @@ def run_parts(module, nparts, cfg=None, env=None, maxproc=14, **kw):
 def sany(path):
     p = subprocess.run(['java', '-cp', JAR, f'-DTLA-Library={os.pathsep.join(_spec_dirs())}',
                         'tla2sany.SANY', path],
-                       cwd=os.path.dirname(path), stdout=subprocess.PIPE, stderr=subprocess.STDOUT, text=True)
+                       cwd=os.path.dirname(path), preexec_fn=_unlimit, stdout=subprocess.PIPE, stderr=subprocess.STDOUT, text=True)
     bad = p.returncode != 0 or 'rror' in p.stdout.replace('Semantic errors:', 'Semantic rrors:') and \
         ('*** Errors' in p.stdout or 'Fatal' in p.stdout or 'Parse Error' in p.stdout)
     return (not bad), p.stdout
